@@ -66,7 +66,7 @@ var focusTags = map[string][]string{
 	"C03": {"core", "C03"},
 	"C04": {"storage", "multisig", "miner", "vesting", "zcn", "C04"},
 	"C05": {"core", "faucet", "stake", "vesting"},
-	"C06": {"gov", "settings"},
+	"C06": {"gov", "settings", "C06"},
 	"C07": {"storage", "miner", "stake", "partition", "C07"},
 	"C09": {"storage", "stake", "vesting", "zcn", "fees"},
 	"C11": {"stake"},
